@@ -51,6 +51,9 @@ type ScanChunk struct {
 	// although nothing of it is left (HBase does that when a size limit is hit
 	// exactly at the end of a row: "may have more cells in row").
 	MarkLastPartial bool
+	// HeartbeatFlag sets heartbeat_message on a response that carries results
+	// (HBase does that when the time limit is hit after something was collected).
+	HeartbeatFlag bool
 	// EmptyFragment inserts a fragment without cells (cells_per_result 0,
 	// partial) after the first fragment of a row split by SplitFirst.
 	EmptyFragment bool
@@ -85,6 +88,7 @@ func DefaultScanPolicy(x *ScanCtx) ScanChunk {
 	ch.EndRegionLater = x.Rand(3) == 0
 	ch.MoreResultsFalse = x.Rand(2) == 0
 	ch.MarkLastPartial = x.AllowPartials && ch.TrailingCells == 0 && x.Rand(5) == 0
+	ch.HeartbeatFlag = x.Rand(6) == 0
 	return ch
 }
 
@@ -340,6 +344,10 @@ func (c *Cluster) handleScan(req *Request) *Reply {
 		nCells += len(r.cells)
 	}
 	info := fmt.Sprintf("results=%d partials=%d cells=%d", len(results), nPartial, nCells)
+	if ch.HeartbeatFlag && len(results) > 0 {
+		resp.HeartbeatMessage = proto.Bool(true)
+		info += " heartbeat-with-results"
+	}
 	if s.GetTrackScanMetrics() {
 		resp.ScanMetrics = &pb.ScanMetrics{Metrics: []*pb.NameInt64Pair{
 			{Name: proto.String("ROWS_SCANNED"), Value: proto.Int64(int64(len(results)))},
